@@ -12,7 +12,7 @@ RULE = ("each logical call (engine, sequences[, query], k, mode) is executed for
         "coordinates; every invalid-argument class must raise on every engine; non-trivial = expected set non-empty")
 ASSUMPTIONS = ["two-collection calls vary one container at a time (star) plus both-permuted, not the full 7x7 product",
                "an invalid argument is 'rejected' when any exception is raised"]
-REQUIRED_CLASSES = {"all": ["series-permuted-labels", "series-shifted-labels", "coo-output", "ndarray-output", "invalid-argument", "non-square-matrix", "non-integer-distances", "asymmetric-result", "more-queries-than-references", "radius-3-and-4-in-every-container", "invalid-argument-with-a-lone-sequence", "empty-query-collection"]}
+REQUIRED_CLASSES = {"all": ["series-permuted-labels", "series-shifted-labels", "coo-output", "ndarray-output", "invalid-argument", "non-square-matrix", "non-integer-distances", "asymmetric-result", "more-queries-than-references", "radius-3-and-4-in-every-container", "invalid-argument-with-a-lone-sequence", "empty-query-collection", "progress-bar-with-every-query-container"]}
 MIN_OUTCOMES = 10
 
 CONTAINERS = ("list", "tuple", "ndarray", "series", "series_shift", "series_perm", "series_str", "ndarray_object")
@@ -94,6 +94,12 @@ def call_two(acc, eng, ref, query, k, mode, out):
         return acc.call(lambda: SymdelDB(ref, k).lookup(query, custom_distance=cd, output_type=out))
     if eng == "LookupDB":
         return acc.call(lambda: LookupDB(ref).lookup(query, max_edits=k, custom_distance=cd, output_type=out))
+    if eng == "symdel2-progress":
+        return acc.call(pyrepseq.symdel, ref, k, custom_distance=cd, output_type=out, seqs2=query, progress=True)
+    if eng == "SymdelDB-progress":
+        return acc.call(lambda: SymdelDB(ref, k).lookup(query, custom_distance=cd, output_type=out, progress=True))
+    if eng == "LookupDB-progress":
+        return acc.call(lambda: LookupDB(ref).lookup(query, max_edits=k, custom_distance=cd, output_type=out, progress=True))
     raise HarnessError(eng)
 
 
@@ -286,6 +292,14 @@ def check_case(case, acc):
                     for out in OUTPUTS:
                         for cr, cq in (combos if mode in ("lev", "hamming") else (combos[:1] + combos[3:6] + combos[-1:] if mode == "halflev" else combos[:1])):
                             _one_two(acc, eng, ref, query, k, mode, out, cr, cq, expected)
+        # the progress bar is cosmetics: the same answers for every container of the queries
+        acc.cls("progress-bar-with-every-query-container")
+        for k in (1, 2):
+            expected = expected_for(ref, k, "lev", query)
+            for eng in ("symdel2-progress", "SymdelDB-progress", "LookupDB-progress"):
+                for out in ("triplets", "ndarray"):
+                    for cq in ("list", "ndarray", "series_perm", "series_shift", "series_str"):
+                        _one_two(acc, eng, ref, query, k, "lev", out, "series_perm" if cq == "series_perm" else "list", cq, expected)
     elif kind == "wide":
         _, ref, query = case
         acc.cls("more-queries-than-references" if query else "empty-query-collection")
